@@ -159,7 +159,8 @@ def check_history(kind, seed, nq):
     r = random.Random('c17/%s' % seed)
     try:
         doc, twin = make_pair(kind, seed)
-    except Exception:
+    except Exception as e:
+        core.note_skip('c17:make_pair', e)
         return None
     before = snap.snapshot(doc)
     mbefore = meta(doc)
@@ -194,6 +195,7 @@ def check_history(kind, seed, nq):
         if c03.wbytes(doc) != c03.wbytes(twin):
             return ('saved-xml-changed', 'after read-only operations %s the document is written differently from an identical twin that was never queried' % hist)
     except Exception as e:
+        core.note_skip('c17:write-twin', e)
         return None
     return None
 
